@@ -36,8 +36,8 @@ var extraProfs = []regProf{
 	// derived profiles that inherit everything and only set CanonicalProfile:
 	// one on profile 1 named by a URI (in CBOR it is declared under key 265,
 	// with or without -75000), one on profile 2 named by an OID
-	{InhP1Name, P1, "psa-profile", "*checks.InheritP1Claims", inheritP1Profile{}},
-	{InhP2OID, P2, "eat-profile", "*checks.InheritP2Claims", inheritP2Profile{}},
+	{InhP1Name, P1, "psa-profile", "*checks.InheritP1Claims", inheritProfile{P1}},
+	{InhP2OID, P2, "eat-profile", "*checks.InheritP2Claims", inheritProfile{P2}},
 	// own claims under keys that merely start with the digits of the profile keys
 	{RegionP2Name, P2, "eat-profile", "*checks.RegionP2Claims", regionP2Profile{}},
 }
@@ -877,6 +877,38 @@ func TestC07_Dispatch(t *testing.T) {
 					// a profile derived from profile 2 inherits profile 2's rule:
 					// the bare EAN-13 form is profile 1's
 					c.Body.CertRef = sp(drawDigits(t, 13, "cert.ean13"))
+				}
+			}
+		}
+		if c.Format == "json" && rapid.IntRange(0, 7).Draw(t, "twoprofiles") == 0 {
+			// two DIFFERENT registered profiles declared at once, each under
+			// its own member: ambiguous, whatever implements the two (the
+			// two derived profiles share one Go implementation type)
+			if genBool.Draw(t, "twoprofiles.inherit") {
+				have := map[int]bool{}
+				for _, i := range c.Reg {
+					have[i] = true
+				}
+				for _, i := range []int{3, 4} {
+					if !have[i] {
+						c.Reg = append(c.Reg, i)
+					}
+				}
+				sort.Ints(c.Reg)
+				c.S1 = slotVal{Kind: "name", Name: InhP1Name}
+				c.S2 = slotVal{Kind: "name", Name: InhP2OID}
+			} else {
+				byTag := map[string][]string{}
+				for _, r := range c.registered() {
+					byTag[r.Tag] = append(byTag[r.Tag], r.Name)
+				}
+				c.S1 = slotVal{Kind: "name", Name: rapid.SampledFrom(byTag["psa-profile"]).Draw(t, "twoprofiles.s1")}
+				c.S2 = slotVal{Kind: "name", Name: rapid.SampledFrom(byTag["eat-profile"]).Draw(t, "twoprofiles.s2")}
+				if xs := byTag["x-profile"]; len(xs) > 0 && genBool.Draw(t, "twoprofiles.sx") {
+					c.SX = slotVal{Kind: "name", Name: xs[0]}
+					if genBool.Draw(t, "twoprofiles.dropone") {
+						c.S1 = slotVal{Kind: "absent"}
+					}
 				}
 			}
 		}
